@@ -95,10 +95,17 @@ class ScriptedSingle:
         self.outcomes = outcomes      # code -> 7-tuple
         self.calls: list = []
 
+    # what a search object may leave in `failure` when it gives up: the documented reasons, nothing at all (the attribute's
+    # initial value), or a reason of its own (any single-ended search object may be plugged in)
+    REASONS = ['steps', 'SDpaths', 'eigenvector', 'eigenvalue', 'bounds', 'pushoff', 'invalid_ts', None, 'stalled']
+
     def run(self, coords, tag=-1):
         code = int(round(float(coords.position[0])))
         self.calls.append(code)
-        return self.outcomes[code]
+        out = self.outcomes[code]
+        if out[0] is None:
+            self.failure = self.REASONS[code % len(self.REASONS)]
+        return out
 
 
 class ScriptedReSearch:
@@ -109,7 +116,10 @@ class ScriptedReSearch:
         self.by_bytes = by_bytes
 
     def run(self, coords, tag=-1):
-        return self.by_bytes[np.asarray(coords.position, dtype=float).tobytes()]
+        out = self.by_bytes[np.asarray(coords.position, dtype=float).tobytes()]
+        if out[0] is None:
+            self.failure = ScriptedSingle.REASONS[len(np.asarray(coords.position).tobytes()) % 3 + 6]
+        return out
 
 
 class ScriptedMinimiser:
